@@ -1408,7 +1408,14 @@ func genConc(prop string, seed uint64, g *gen, thorough bool) *Case {
 		}
 		c.Clients = append(c.Clients, ops)
 	}
-	if (prop == "C10" || prop == "C09") && closer < 0 && r.p(0.15) {
+	if prop == "C10" && r.p(0.12) {
+		// a failing journal write in the middle of the protocol: the group's
+		// writers all get the error, a writer that was too large to merge is
+		// still handed the lock
+		for i := r.rng(1, 2); i > 0; i-- {
+			c.Faults = append(c.Faults, &simdisk.Fault{Kind: "err", Op: []string{simdisk.OpWrite, simdisk.OpSync}[r.intn(2)], FT: int(storage.TypeJournal), Nth: r.rng(1, 30), Count: r.rng(1, 2), Epoch: -1})
+		}
+	} else if (prop == "C10" || prop == "C09") && closer < 0 && r.p(0.15) {
 		// the DB enters its persistent error state in the middle of the
 		// writer protocol: one client switches it to read-only, half of the
 		// time while a flush is failing and being retried
